@@ -238,6 +238,10 @@ theorem shut_setBlockedLoop (h : Shut o c) (fuel : Nat) : Shut o (setBlockedLoop
     · split <;> exact h
     · exact ih (by shut_same h)
 
+theorem shut_ite {α : Type} {p : Prop} [Decidable p] {a b : Conn × α} (ha : Shut o a.1)
+    (hb : Shut o b.1) : Shut o (if p then a else b).1 := by
+  split <;> assumption
+
 theorem shut_allocateLoop (h : Shut o c) (fuel : Nat) : Shut o (allocateLoop fuel c).1 := by
   induction fuel generalizing c with
   | zero => exact h
@@ -255,10 +259,10 @@ theorem shut_allocateLoop (h : Shut o c) (fuel : Nat) : Shut o (allocateLoop fue
         dsimp only
         generalize Slots.insertSome c.alloc id = p
       all_goals
-        repeat' split
-        all_goals first
-          | shut_same h
-          | exact ih (by shut_same h)
+        split
+        · shut_same h
+        · exact shut_ite (ih (by shut_same h)) (shut_ite (by shut_same h) (ih (by shut_same h)))
+        · exact shut_ite (ih (by shut_same h)) (shut_ite (by shut_same h) (ih (by shut_same h)))
 
 theorem shut_writeToStream (h : Shut o c) : Shut o (writeToStream c).1 :=
   h.of_still (still_writeToStream c)
@@ -459,14 +463,14 @@ theorem writeLoop_wrote (fuel : Nat) (c : Conn) (pos : Nat) (w : Bytes) (hw : w 
   induction fuel generalizing c pos w with
   | zero =>
     unfold writeLoop
-    exact ⟨pos, hw, fun h => by cases h, fun _ => rfl⟩
+    exact ⟨pos, hw, fun h => (by cases h), fun _ => rfl⟩
   | succ fuel ih =>
     unfold writeLoop
     split
     · split
       · exact ⟨pos, hw, fun _ => rfl, fun h => absurd rfl h⟩
       · exact ⟨pos, hw, fun _ => rfl, fun h => absurd rfl h⟩
-      · exact ⟨pos, hw, fun h => by cases h, fun _ => rfl⟩
+      · exact ⟨pos, hw, fun h => (by cases h), fun _ => rfl⟩
       · rename_i k rest hwr
         exact ih { c with writes := rest } _ _ (by subst hw; exact List.take_add.symm)
     · rename_i hlt
@@ -484,5 +488,333 @@ theorem writeToStream_wrote (c : Conn) :
   rcases (writeToStream_spec c).2.2.2.2.2.2.2.2.2 with h | h
   · exact absurd h hne
   · exact h
+
+/-! ## 3. The close arms of `process` -/
+
+/-- What both close arms do after their own first step: the state changes, the channel-0 slot
+    (owned by the old `Steady` value) and the pending channel-0 requests are dropped. -/
+def closeState (c : Conn) (st' : CSt) : Conn :=
+  { (setLink { c with st := st' } 0
+      { (getLink { c with st := st' } 0) with ioAlive := false, fifo := [] }) with
+    blockedL := none, allocReq := [], blockedFifo := [] }
+
+@[simp] theorem closeState_slots (c : Conn) (st' : CSt) : (closeState c st').slots = c.slots := rfl
+@[simp] theorem closeState_cqs (c : Conn) (st' : CSt) : (closeState c st').cqs = c.cqs := rfl
+@[simp] theorem closeState_st (c : Conn) (st' : CSt) : (closeState c st').st = st' := rfl
+@[simp] theorem closeState_out (c : Conn) (st' : CSt) : (closeState c st').out = c.out := rfl
+@[simp] theorem closeState_sealed (c : Conn) (st' : CSt) : (closeState c st').sealed = c.sealed := rfl
+
+theorem getLink_closeState_ne (c : Conn) (st' : CSt) {lid : Nat} (h : lid ≠ 0) :
+    getLink (closeState c st') lid = getLink c lid := by
+  have e1 : getLink (closeState c st') lid =
+      getLink (setLink { c with st := st' } 0
+        { (getLink { c with st := st' } 0) with ioAlive := false, fifo := [] }) lid :=
+    getLink_congr rfl lid
+  rw [e1, getLink_setLink_ne _ (fun e => h e.symm)]
+  exact getLink_congr rfl lid
+
+theorem getLink_closeState_zero (c : Conn) (st' : CSt) :
+    getLink (closeState c st') 0 = { (getLink c 0) with ioAlive := false, fifo := [] } := by
+  have e1 : getLink (closeState c st') 0 =
+      getLink (setLink { c with st := st' } 0
+        { (getLink { c with st := st' } 0) with ioAlive := false, fifo := [] }) 0 :=
+    getLink_congr rfl 0
+  rw [e1, getLink_setLink_self]
+  have e2 : getLink { c with st := st' } 0 = getLink c 0 := getLink_congr rfl 0
+  rw [e2]
+
+/-- The server's Connection.Close in `Steady`. -/
+theorem process_serverClose_eq {c : Conn} (hs : c.st = .steady) (code : Nat) (text dc df : Bytes) :
+    process c (.method 0 10 50 [.nat code, .bytes text]) dc df =
+      drainSlots (closeState (sealOut (pushOut c connectionCloseOk)) (.serverClosing code text))
+        (.err (.serverClosedConnection code text)) (.serverClosedConnection code text) := by
+  unfold process
+  split
+  all_goals first | (rename_i h; rw [hs] at h; cases h; done) | skip
+  rfl
+
+/-- The server's Connection.CloseOk in `Steady`, the connection's own handle alive with room. -/
+theorem process_closeOk_eq {c : Conn} (hs : c.st = .steady) (fields : List Field) (dc df : Bytes)
+    (halive : (getLink c 0).clientAlive = true) (hroom : (getLink c 0).replies.length < 2) :
+    process c (.method 0 10 51 fields) dc df =
+      drainSlots (closeState (setLink c 0
+          { (getLink c 0) with replies := (getLink c 0).replies ++ [.method 10 51 []] }) .clientClosed)
+        (.err .clientClosedConnection) .clientClosedConnection := by
+  unfold process
+  split
+  all_goals first | (rename_i h; rw [hs] at h; cases h; done) | skip
+  dsimp only
+  rw [if_neg (by rw [halive]; decide), if_neg (Nat.not_le.mpr hroom)]
+  rfl
+
+/-- `drainSlots` with no slot open. -/
+theorem drainSlots_nil {c : Conn} (h : c.slots = []) (r : Reply) (m : CMsg) :
+    drainSlots c r m = ({ c with slots := [], alloc := (Slots.drain c.alloc).1 }, none) := by
+  unfold drainSlots
+  rw [h]
+  rfl
+
+/-! ## 4. `drainSlots` notifies every slot -/
+
+theorem sendReply_ok {c : Conn} {lid : Nat} (ha : (getLink c lid).clientAlive = true)
+    (hr : (getLink c lid).replies.length < 2) (r : Reply) :
+    sendReply c lid r =
+      (setLink c lid { (getLink c lid) with replies := (getLink c lid).replies ++ [r] }, none) := by
+  unfold sendReply
+  dsimp only
+  rw [if_neg (by rw [ha]; decide), if_neg (Nat.not_le.mpr hr)]
+
+theorem sendCons_ok {c : Conn} {qid : Nat} {q : CQ} (hq : lookupN qid c.cqs = some q)
+    (hrx : q.rxAlive = true) (m : CMsg) :
+    sendCons c qid m = ({ c with cqs := setN qid { q with msgs := q.msgs ++ [m] } c.cqs }, none) := by
+  unfold sendCons
+  rw [hq]
+  dsimp only
+  rw [if_neg (by rw [hrx]; decide)]
+
+theorem dropConsTx_some {c : Conn} {qid : Nat} {q : CQ} (hq : lookupN qid c.cqs = some q) :
+    dropConsTx c qid = { c with cqs := setN qid { q with txAlive := false } c.cqs } := by
+  unfold dropConsTx
+  rw [hq]
+
+@[simp] theorem dropConsTx_links (c : Conn) (qid : Nat) : (dropConsTx c qid).links = c.links := by
+  unfold dropConsTx; split <;> rfl
+
+theorem lookupN_dropConsTx_ne (c : Conn) {qid j : Nat} (h : qid ≠ j) :
+    lookupN j (dropConsTx c qid).cqs = lookupN j c.cqs := by
+  unfold dropConsTx
+  split
+  · exact lookupN_setN_ne h _ _
+  · rfl
+
+/-- Dropping a sender that is already gone changes nothing. -/
+theorem lookupN_dropConsTx_off (c : Conn) (qid : Nat) {j : Nat} {q : CQ}
+    (hq : lookupN j c.cqs = some q) (hoff : q.txAlive = false) :
+    lookupN j (dropConsTx c qid).cqs = some q := by
+  by_cases h : qid = j
+  · subst h
+    rw [dropConsTx_some hq]
+    show lookupN qid (setN qid _ c.cqs) = some q
+    rw [lookupN_setN_self]
+    cases q
+    simp only at hoff
+    subst hoff
+    rfl
+  · rw [lookupN_dropConsTx_ne c h]; exact hq
+
+theorem foldl_dropConsTx_links (c : Conn) (l : List (Bytes × Nat)) :
+    (l.foldl (fun acc (x : Bytes × Nat) => dropConsTx acc x.2) c).links = c.links := by
+  induction l generalizing c with
+  | nil => rfl
+  | cons x r ih => exact (ih _).trans (dropConsTx_links c x.2)
+
+theorem foldl_dropConsTx_ne (c : Conn) (l : List (Bytes × Nat)) {j : Nat}
+    (h : j ∉ l.map (·.2)) :
+    lookupN j (l.foldl (fun acc (x : Bytes × Nat) => dropConsTx acc x.2) c).cqs = lookupN j c.cqs := by
+  induction l generalizing c with
+  | nil => rfl
+  | cons x r ih =>
+    have h1 : x.2 ≠ j := fun e => h (by rw [List.map_cons, e]; exact List.mem_cons_self)
+    have h2 : j ∉ r.map (·.2) := fun e => h (by rw [List.map_cons]; exact List.mem_cons_of_mem _ e)
+    exact (ih _ h2).trans (lookupN_dropConsTx_ne c h1)
+
+theorem foldl_dropConsTx_off (c : Conn) (l : List (Bytes × Nat)) {j : Nat} {q : CQ}
+    (hq : lookupN j c.cqs = some q) (hoff : q.txAlive = false) :
+    lookupN j (l.foldl (fun acc (x : Bytes × Nat) => dropConsTx acc x.2) c).cqs = some q := by
+  induction l generalizing c with
+  | nil => exact hq
+  | cons x r ih => exact ih _ (lookupN_dropConsTx_off c x.2 hq hoff)
+
+theorem dropSlotEnds_eq (c : Conn) (s : Slot) :
+    dropSlotEnds c s = s.consumers.foldl (fun acc (x : Bytes × Nat) => dropConsTx acc x.2)
+      (setLink c s.lid { (getLink c s.lid) with ioAlive := false, fifo := [] }) := rfl
+
+theorem getLink_dropSlotEnds (c : Conn) (s : Slot) (lid : Nat) :
+    getLink (dropSlotEnds c s) lid =
+      if s.lid = lid then { (getLink c s.lid) with ioAlive := false, fifo := [] } else getLink c lid := by
+  rw [dropSlotEnds_eq, getLink_congr (foldl_dropConsTx_links _ _) lid, getLink_setLink]
+
+theorem lookupN_dropSlotEnds_ne (c : Conn) (s : Slot) {j : Nat} (h : j ∉ s.consumers.map (·.2)) :
+    lookupN j (dropSlotEnds c s).cqs = lookupN j c.cqs := by
+  rw [dropSlotEnds_eq, foldl_dropConsTx_ne _ _ h]; rfl
+
+theorem lookupN_dropSlotEnds_off (c : Conn) (s : Slot) {j : Nat} {q : CQ}
+    (hq : lookupN j c.cqs = some q) (hoff : q.txAlive = false) :
+    lookupN j (dropSlotEnds c s).cqs = some q := by
+  rw [dropSlotEnds_eq]; exact foldl_dropConsTx_off _ _ hq hoff
+
+/-- Every consumer of a slot is there: each gets the terminal message, then its sender is dropped;
+    nothing else moves. -/
+theorem notifyConsumers_spec (m : CMsg) (l : List (Bytes × Nat)) (c : Conn)
+    (hc : ∀ e ∈ l, ∃ q, lookupN e.2 c.cqs = some q ∧ q.rxAlive = true)
+    (hnd : (l.map (·.2)).Nodup) :
+    (notifyConsumers m c l).2 = none ∧ (notifyConsumers m c l).1.links = c.links ∧
+    (∀ e ∈ l, ∀ q, lookupN e.2 c.cqs = some q →
+      lookupN e.2 (notifyConsumers m c l).1.cqs = some { q with msgs := q.msgs ++ [m], txAlive := false }) ∧
+    (∀ j, j ∉ l.map (·.2) → lookupN j (notifyConsumers m c l).1.cqs = lookupN j c.cqs) := by
+  induction l generalizing c with
+  | nil => exact ⟨rfl, rfl, fun e he => (by cases he), fun _ _ => rfl⟩
+  | cons x rest ih =>
+    obtain ⟨t, qid⟩ := x
+    obtain ⟨q0, hq0, hrx0⟩ := hc (t, qid) List.mem_cons_self
+    rw [List.map_cons, List.nodup_cons] at hnd
+    obtain ⟨hnotin, hnd'⟩ := hnd
+    -- the state after the head
+    have hstep : notifyConsumers m c ((t, qid) :: rest) =
+        notifyConsumers m (dropConsTx (sendCons c qid m).1 qid) rest := by
+      conv => lhs; unfold notifyConsumers
+      rw [sendCons_ok hq0 hrx0]
+    have hlk : ∀ j, lookupN j (dropConsTx (sendCons c qid m).1 qid).cqs =
+        if qid = j then some { q0 with msgs := q0.msgs ++ [m], txAlive := false } else lookupN j c.cqs := by
+      intro j
+      rw [sendCons_ok hq0 hrx0]
+      dsimp only
+      rw [dropConsTx_some (q := { q0 with msgs := q0.msgs ++ [m] }) (lookupN_setN_self _ _ _)]
+      show lookupN j (setN qid _ (setN qid _ c.cqs)) = _
+      rw [lookupN_setN, lookupN_setN]
+      split <;> rfl
+    have hlinks : (dropConsTx (sendCons c qid m).1 qid).links = c.links := by
+      rw [dropConsTx_links, sendCons_ok hq0 hrx0]
+    have hne : ∀ e ∈ rest, qid ≠ e.2 := fun e he heq =>
+      hnotin (heq ▸ List.mem_map_of_mem (f := (·.2)) he)
+    obtain ⟨i1, i2, i3, i4⟩ := ih (dropConsTx (sendCons c qid m).1 qid)
+      (fun e he => by
+        obtain ⟨q, hq, hrx⟩ := hc e (List.mem_cons_of_mem _ he)
+        exact ⟨q, by rw [hlk, if_neg (hne e he)]; exact hq, hrx⟩) hnd'
+    rw [hstep]
+    refine ⟨i1, i2.trans hlinks, fun e he q hq => ?_, fun j hj => ?_⟩
+    · rcases List.mem_cons.mp he with he | he
+      · subst he
+        rw [hq0] at hq; cases hq
+        rw [i4 qid hnotin, hlk, if_pos rfl]
+      · exact i3 e he q (by rw [hlk, if_neg (hne e he)]; exact hq)
+    · have hj1 : qid ≠ j := fun e => hj (by rw [List.map_cons, e]; exact List.mem_cons_self)
+      have hj2 : j ∉ rest.map (·.2) := fun e => hj (by rw [List.map_cons]; exact List.mem_cons_of_mem _ e)
+      rw [i4 j hj2, hlk, if_neg hj1]
+
+/-- One iteration of the `chan_slots.drain()` loop when nothing fails. -/
+def closeSlot (r : Reply) (m : CMsg) (c : Conn) (s : Slot) : Conn :=
+  dropSlotEnds (notifyConsumers m (sendReply c s.lid r).1 s.consumers).1 s
+
+/-- A slot whose handle and consumers are all there: the handle gets the reply, every consumer the
+    terminal message, all the slot's queue ends are dropped, nothing else moves. -/
+theorem closeSlot_spec (r : Reply) (m : CMsg) (c : Conn) (s : Slot)
+    (ha : (getLink c s.lid).clientAlive = true) (hr : (getLink c s.lid).replies.length < 2)
+    (hc : ∀ e ∈ s.consumers, ∃ q, lookupN e.2 c.cqs = some q ∧ q.rxAlive = true)
+    (hnd : (s.consumers.map (·.2)).Nodup) :
+    (sendReply c s.lid r).2 = none ∧
+    (notifyConsumers m (sendReply c s.lid r).1 s.consumers).2 = none ∧
+    (getLink (closeSlot r m c s) s.lid).replies = (getLink c s.lid).replies ++ [r] ∧
+    (getLink (closeSlot r m c s) s.lid).ioAlive = false ∧
+    (∀ lid, lid ≠ s.lid → getLink (closeSlot r m c s) lid = getLink c lid) ∧
+    (∀ e ∈ s.consumers, ∀ q, lookupN e.2 c.cqs = some q →
+      lookupN e.2 (closeSlot r m c s).cqs = some { q with msgs := q.msgs ++ [m], txAlive := false }) ∧
+    (∀ j, j ∉ s.consumers.map (·.2) → lookupN j (closeSlot r m c s).cqs = lookupN j c.cqs) := by
+  have e1 := sendReply_ok ha hr r
+  have hc1 : ∀ e ∈ s.consumers, ∃ q, lookupN e.2 (sendReply c s.lid r).1.cqs = some q ∧ q.rxAlive = true := by
+    rw [e1]; exact hc
+  obtain ⟨n1, n2, n3, n4⟩ := notifyConsumers_spec m s.consumers (sendReply c s.lid r).1 hc1 hnd
+  have hcq : (sendReply c s.lid r).1.cqs = c.cqs := by rw [e1]; rfl
+  have hl : ∀ lid, getLink (notifyConsumers m (sendReply c s.lid r).1 s.consumers).1 lid =
+      if s.lid = lid then { (getLink c s.lid) with replies := (getLink c s.lid).replies ++ [r] }
+      else getLink c lid := by
+    intro lid
+    rw [getLink_congr n2 lid, e1]
+    exact getLink_setLink c s.lid lid _
+  refine ⟨by rw [e1], n1, ?_, ?_, fun lid hne => ?_, fun e he q hq => ?_, fun j hj => ?_⟩
+  · unfold closeSlot
+    rw [getLink_dropSlotEnds, if_pos rfl, hl, if_pos rfl]
+  · unfold closeSlot
+    rw [getLink_dropSlotEnds, if_pos rfl]
+  · unfold closeSlot
+    rw [getLink_dropSlotEnds, if_neg (fun e => hne e.symm), hl, if_neg (fun e => hne e.symm)]
+  · unfold closeSlot
+    exact lookupN_dropSlotEnds_off _ s (n3 e he q (by rw [hcq]; exact hq)) rfl
+  · unfold closeSlot
+    rw [lookupN_dropSlotEnds_ne _ s hj, n4 j hj, hcq]
+
+theorem drainSlots_go_cons (r : Reply) (m : CMsg) (all : List (Nat × Slot)) (c : Conn) (k : Nat)
+    (s : Slot) (rest : List (Nat × Slot)) (h1 : (sendReply c s.lid r).2 = none)
+    (h2 : (notifyConsumers m (sendReply c s.lid r).1 s.consumers).2 = none) :
+    drainSlots.go r m all c ((k, s) :: rest) = drainSlots.go r m all (closeSlot r m c s) rest := by
+  conv => lhs; unfold drainSlots.go
+  dsimp only
+  split
+  · rename_i heq
+    have := congrArg Prod.snd heq
+    rw [h1] at this; cases this
+  · rename_i c1 heq
+    have e1 : c1 = (sendReply c s.lid r).1 := (congrArg Prod.fst heq).symm
+    subst e1
+    split
+    · rename_i heq2
+      have := congrArg Prod.snd heq2
+      rw [h2] at this; cases this
+    · rename_i c2 heq2
+      have e2 : c2 = (notifyConsumers m (sendReply c s.lid r).1 s.consumers).1 :=
+        (congrArg Prod.fst heq2).symm
+      subst e2
+      rfl
+
+/-- The drain loop over slots whose handles and consumers are all there, with pairwise distinct
+    links and consumer queues. -/
+theorem drainSlots_go_spec (r : Reply) (m : CMsg) (all : List (Nat × Slot)) (l : List (Nat × Slot))
+    (c : Conn)
+    (hh : ∀ p ∈ l, (getLink c p.2.lid).clientAlive = true ∧ (getLink c p.2.lid).replies.length < 2)
+    (hc : ∀ p ∈ l, ∀ e ∈ p.2.consumers, ∃ q, lookupN e.2 c.cqs = some q ∧ q.rxAlive = true)
+    (hlid : (l.map (·.2.lid)).Nodup)
+    (hq : (l.flatMap (fun p => p.2.consumers.map (·.2))).Nodup) :
+    (drainSlots.go r m all c l).2 = none ∧
+    (∀ p ∈ l, (getLink (drainSlots.go r m all c l).1 p.2.lid).replies = (getLink c p.2.lid).replies ++ [r] ∧
+      (getLink (drainSlots.go r m all c l).1 p.2.lid).ioAlive = false) ∧
+    (∀ lid, lid ∉ l.map (·.2.lid) → getLink (drainSlots.go r m all c l).1 lid = getLink c lid) ∧
+    (∀ p ∈ l, ∀ e ∈ p.2.consumers, ∀ q, lookupN e.2 c.cqs = some q →
+      lookupN e.2 (drainSlots.go r m all c l).1.cqs = some { q with msgs := q.msgs ++ [m], txAlive := false }) ∧
+    (∀ j, j ∉ l.flatMap (fun p => p.2.consumers.map (·.2)) →
+      lookupN j (drainSlots.go r m all c l).1.cqs = lookupN j c.cqs) := by
+  induction l generalizing c with
+  | nil =>
+    unfold drainSlots.go
+    exact ⟨rfl, fun p hp => (by cases hp), fun _ _ => rfl, fun p hp => (by cases hp), fun _ _ => rfl⟩
+  | cons x rest ih =>
+    obtain ⟨k, s⟩ := x
+    rw [List.map_cons, List.nodup_cons] at hlid
+    obtain ⟨hlnot, hlid'⟩ := hlid
+    rw [List.flatMap_cons, List.nodup_append] at hq
+    obtain ⟨hqs, hq', hqdisj⟩ := hq
+    obtain ⟨ha, hr⟩ := hh (k, s) List.mem_cons_self
+    obtain ⟨s1, s2, s3, s4, s5, s6, s7⟩ := closeSlot_spec r m c s ha hr (hc (k, s) List.mem_cons_self) hqs
+    -- facts about the slots still to come
+    have hlne : ∀ p ∈ rest, p.2.lid ≠ s.lid := fun p hp e =>
+      hlnot (e ▸ List.mem_map_of_mem (f := (·.2.lid)) hp)
+    have hqne : ∀ p ∈ rest, ∀ e ∈ p.2.consumers, e.2 ∉ s.consumers.map (·.2) := fun p hp e he hin =>
+      hqdisj e.2 hin e.2 (List.mem_flatMap.mpr ⟨p, hp, List.mem_map_of_mem (f := (·.2)) he⟩) rfl
+    obtain ⟨i1, i2, i3, i4, i5⟩ := ih (closeSlot r m c s)
+      (fun p hp => by
+        rw [s5 _ (hlne p hp)]; exact hh p (List.mem_cons_of_mem _ hp))
+      (fun p hp e he => by
+        rw [s7 _ (hqne p hp e he)]; exact hc p (List.mem_cons_of_mem _ hp) e he)
+      hlid' hq'
+    rw [drainSlots_go_cons r m all c k s rest s1 s2]
+    refine ⟨i1, fun p hp => ?_, fun lid hlid => ?_, fun p hp e he q hq => ?_, fun j hj => ?_⟩
+    · rcases List.mem_cons.mp hp with hp | hp
+      · subst hp
+        rw [i3 _ hlnot]; exact ⟨s3, s4⟩
+      · have := i2 p hp
+        rw [s5 _ (hlne p hp)] at this; exact this
+    · have h1 : lid ≠ s.lid := fun e => hlid (by rw [List.map_cons, e]; exact List.mem_cons_self)
+      have h2 : lid ∉ rest.map (·.2.lid) := fun e => hlid (by rw [List.map_cons]; exact List.mem_cons_of_mem _ e)
+      rw [i3 lid h2, s5 lid h1]
+    · rcases List.mem_cons.mp hp with hp | hp
+      · subst hp
+        have hnot : e.2 ∉ rest.flatMap (fun p => p.2.consumers.map (·.2)) := fun hin =>
+          hqdisj e.2 (List.mem_map_of_mem (f := (·.2)) he) e.2 hin rfl
+        rw [i5 _ hnot]; exact s6 e he q hq
+      · exact i4 p hp e he q (by rw [s7 _ (hqne p hp e he)]; exact hq)
+    · have h1 : j ∉ s.consumers.map (·.2) := fun e =>
+        hj (by rw [List.flatMap_cons]; exact List.mem_append_left _ e)
+      have h2 : j ∉ rest.flatMap (fun p => p.2.consumers.map (·.2)) := fun e =>
+        hj (by rw [List.flatMap_cons]; exact List.mem_append_right _ e)
+      rw [i5 j h2, s7 j h1]
 
 end AmqModel.Conn
